@@ -199,7 +199,8 @@ def _map_cyclic(x: numpy.ndarray, lbound: float, ubound: float) -> numpy.ndarray
             f"less than ubound ({ubound})."
         )
 
-    x = numpy.copy(x)
+    # (as floats: the wrapped positions are fractional even for integer input)
+    x = numpy.array(x, dtype=float)
     x[x > ubound] = lbound + (x[x > ubound] - ubound) % (ubound - lbound)
     x[x < lbound] = ubound - (lbound - x[x < lbound]) % (ubound - lbound)
 
